@@ -440,6 +440,7 @@ func run(r *core.Run) int {
 				map[string]any{"a": cases[j], "b": c})
 		}
 	}
+	r.Set("caller_owned_bundles_found_modified", len(sims.ModifiedBundles()))
 	return r.Finish(r.Pick(4000, 80000),
 		core.Require{Counter: "verdict-OK", Why: "no certificate ended OK"},
 		core.Require{Counter: "verdict-Unknown", Why: "no certificate ended Unknown"},
